@@ -60,8 +60,11 @@ def names(mod, depth=0):
                     else:
                         out.add(a.asname or a.name)
             elif isinstance(st, ast.If):
-                visit(st.body)
-                visit(st.orelse)
+                t, f = version_feasible(st.test)
+                if t:
+                    visit(st.body)
+                if f:
+                    visit(st.orelse)
             elif isinstance(st, ast.Try):
                 visit(st.body)
                 visit(st.orelse)
@@ -70,3 +73,41 @@ def names(mod, depth=0):
     visit(tree.body)
     _cache[mod] = out
     return out
+
+
+SUPPORTED = [(3, m) for m in range(7, 14)]
+
+
+def version_feasible(test):
+    """(can the test be true, can it be false) for some supported CPython 3.7-3.13; platform and other tests: (True, True)"""
+    if isinstance(test, ast.BoolOp):
+        parts = [version_feasible(v) for v in test.values]
+        if isinstance(test.op, ast.And):
+            return all(p[0] for p in parts), any(p[1] for p in parts)
+        return any(p[0] for p in parts), all(p[1] for p in parts)
+    if isinstance(test, ast.UnaryOp) and isinstance(test.op, ast.Not):
+        t, f = version_feasible(test.operand)
+        return f, t
+    if isinstance(test, ast.Compare) and len(test.ops) == 1 and ast.unparse(test.left) == 'sys.version_info' and isinstance(test.comparators[0], ast.Tuple):
+        try:
+            tup = tuple(e.value for e in test.comparators[0].elts)
+        except AttributeError:
+            return True, True
+        op = test.ops[0]
+        def holds(v):
+            vv = v + (0,) * max(0, len(tup) - len(v))
+            vv = vv[:len(tup)] if len(tup) < len(vv) else vv
+            if isinstance(op, ast.GtE):
+                return vv >= tup
+            if isinstance(op, ast.Gt):
+                return vv > tup
+            if isinstance(op, ast.Lt):
+                return vv < tup
+            if isinstance(op, ast.LtE):
+                return vv <= tup
+            if isinstance(op, ast.Eq):
+                return vv == tup
+            return True
+        res = [holds(v) for v in SUPPORTED]
+        return any(res), not all(res)
+    return True, True
